@@ -6,12 +6,22 @@ TT=0; [ "$TIER" = thorough ] && TT=1
 CF="-DTIER_THOROUGH=$TT -std=c++17 -O2 -g -fsanitize=address -fno-omit-frame-pointer -I$REPO -I$MC -I$H -I$VERIF/harness/c02"
 par g++ -c $CF $H/c14_main.cpp -o $BUILD/main.o
 par g++ -c $CF $H/c14_twin.cpp -o $BUILD/twin.o
+# second build of the same TUs: the other compiler (argument evaluation order, folding) at -O2 and with
+# -DNDEBUG (an assert that carries a side effect vanishes); it re-runs a representative selection
+CFC="-DTIER_THOROUGH=$TT -DNDEBUG -std=c++17 -O2 -g1 -fsanitize=address -fno-omit-frame-pointer -I$REPO -I$MC -I$H -I$VERIF/harness/c02"
+par clang++ -c $CFC $H/c14_main.cpp -o $BUILD/main_clang.o
+par clang++ -c $CFC $H/c14_twin.cpp -o $BUILD/twin_clang.o
 par g++ -std=c++17 -O2 -c -I$MC $MC/mc.cpp -o $BUILD/mc.o
 parwait
+par clang++ -fsanitize=address $BUILD/main_clang.o $BUILD/mc.o -o $BUILD/c14_main_clang
+par clang++ -fsanitize=address $BUILD/twin_clang.o $BUILD/mc.o -o $BUILD/c14_twin_clang
 par g++ -fsanitize=address $BUILD/main.o $BUILD/mc.o -o $BUILD/c14_main
 par g++ -fsanitize=address $BUILD/twin.o $BUILD/mc.o -o $BUILD/c14_twin
 parwait
 {
 echo "main $BUILD/c14_main"
 echo "twin $BUILD/c14_twin"
+SEL="vector_tracked_N,vector_int_N2,string_N2,_large,throwing,multiarg,overloaded,move_only"
+echo "main_clang_ndebug $BUILD/c14_main_clang --only $SEL"
+echo "twin_clang_ndebug $BUILD/c14_twin_clang --only $SEL"
 } > $BUILD/runs.txt
